@@ -64,7 +64,7 @@ def generate_all(spec: str, cfgs: List[str], wd: str, tier: str, rep: Report) ->
     """Runs the generation/model-checking configs concurrently; returns the
     case files (one per config)."""
     per = max(3, 16 // max(1, len(cfgs)))
-    timeout = 2400 if tier == "thorough" else 500
+    timeout = 3000 if tier == "thorough" else 1500   # safety net only (shared machine)
 
     def one(cfg: str):
         dest = os.path.join(wd, cfg + ".cases")
@@ -102,9 +102,12 @@ def run_tables(prop: str, tier: str, replay: Optional[str], *, spec: str, trace_
             # model checking still backs the verdict: smallest config
             generate_all(spec, configs["quick"][:1], wd, "quick", rep)
         else:
-            files = generate_all(spec, configs[tier], wd, tier, rep)
+            cfgs = configs[tier]
+            if os.environ.get("VERIF_TABLES_CONFIGS"):  # development knob
+                cfgs = os.environ["VERIF_TABLES_CONFIGS"].split(",")
+            files = generate_all(spec, cfgs, wd, tier, rep)
             total = int(rep.extra.get("generated_cases", 0))
-            n = sample[tier]
+            n = int(os.environ.get("VERIF_TABLES_SAMPLE", sample[tier]))  # development knob
             lines: List[str] = []
             for fpath in files:
                 with open(fpath) as f:
